@@ -1,3 +1,4 @@
+import RossModel.Spec.Frames
 import RossModel.Frame
 import RossModel.Lemmas.Bits
 import RossModel.Lemmas.Cobs
@@ -8,8 +9,7 @@ namespace Ross
 
 theorem bit_lt' (b : Bool) : bit b < 2 := by cases b <;> simp [bit]
 
-/-- byte 0 of the header, stated arithmetically -/
-def hdr0 (f : Frame) : Nat := bit f.notError * 128 + bit f.start * 64 + bit f.multi * 32 + f.fid / 256 % 16
+
 
 theorem or4 (a b c d : Nat) (ha : a < 2) (hb : b < 2) (hc : c < 2) (hd : d < 16) :
     (a * 2^7 ||| b * 2^6 ||| c * 2^5 ||| d) = a * 128 + b * 64 + c * 32 + d := by
@@ -30,10 +30,7 @@ theorem hdr0_lt (f : Frame) : hdr0 f < 256 := by
   have h1 := bit_lt' f.notError; have h2 := bit_lt' f.start; have h3 := bit_lt' f.multi
   unfold hdr0; omega
 
-/-- the five header bytes, stated arithmetically (C09 layout) -/
-def header (f : Frame) : List UInt8 :=
-  [UInt8.ofNat (hdr0 f), UInt8.ofNat (f.fid % 256), UInt8.ofNat (f.addr.toNat / 256),
-   UInt8.ofNat (f.addr.toNat % 256), UInt8.ofNat f.dataLen]
+
 
 theorem and_ff00 (x : Nat) (hx : x < 65536) : (x &&& 0xff00) >>> 8 = x / 256 := by
   have h : (0xff00 : Nat) = 255 <<< 8 := by decide
@@ -73,8 +70,7 @@ theorem toUsart_transparent (f : Frame) (h : f.WF) :
   · rw [Cobs.encode_length _ hne, hlen]
   · rw [Cobs.encode_length _ hne, hlen]; have := h.1; omega
 
-/-- the id kind is not on the wire: the decoder derives it from the start flag -/
-def normKind (f : Frame) : Frame := { f with idLast := f.start }
+
 
 theorem hdr0_fields (f : Frame) :
     (((hdr0 f >>> 7) &&& 0x01) != 0) = f.notError ∧ (((hdr0 f >>> 6) &&& 0x01) != 0) = f.start ∧
